@@ -106,8 +106,10 @@ func (b *bitMask256) toTypes(reg *registry) []ID {
 	types := make([]ID, count)
 
 	totalIDs := reg.Count()
-	bins := totalIDs/wordSize + 1
-	bits := totalIDs % wordSize
+	// Number of words in use, and number of IDs in the last of them.
+	// (totalIDs/wordSize + 1 overruns the mask when all 256 IDs are registered.)
+	bins := (totalIDs + wordSize - 1) / wordSize
+	bits := totalIDs - (bins-1)*wordSize
 
 	idx := 0
 	for i := range bins {
